@@ -40,6 +40,7 @@ class Analyzer(cfg.GraphVisitor):
   def __init__(self, graph, include_annotations):
     super(Analyzer, self).__init__(graph)
     self.include_annotations = include_annotations
+    self._for_loop_headers = cfg.for_loop_headers(graph)
 
   def init_state(self, _):
     return set()
@@ -69,6 +70,14 @@ class Analyzer(cfg.GraphVisitor):
       for n in node.next:
         live_out |= self.in_[n]
       live_in = gen | (live_out - kill)
+
+      if node in self._for_loop_headers:
+        # The loop target is only assigned when entering the loop body. On the
+        # edges that leave the loop its previous value is still visible.
+        _, targets, body_nodes = self._for_loop_headers[node]
+        for n in node.next:
+          if n.ast_node not in body_nodes:
+            live_in |= (self.in_[n] & targets)
 
       reaching_functions = anno.getanno(
           node.ast_node, anno.Static.DEFINED_FNS_IN)
